@@ -75,3 +75,145 @@ def sub_returns_allocation(ck, an, name_prefix):
     ok = bool(rets) and all(isinstance(r.value, ast.Call) and fa.sym.canon(r.value.func) in ("type(self)", "self.__class__") for r in rets)
     ck.check(ok, "IDIOM", f"{name_prefix}.sub-refilters", fa.f.short, fa.f.loc, "__sub__ builds its result through the class constructor (zero differences are dropped)",
              f"__sub__ returns {[ast.unparse(r.value)[:40] for r in rets]} (not re-filtered)", construct="return cls(mapping)")
+
+
+# ---------------------------------------------------------------------------
+# Engine assumptions, defaults and specification tables (shared)
+# ---------------------------------------------------------------------------
+
+DYNAMIC_HOOKS = {"__getattr__", "__getattribute__", "__setattr__", "__delattr__", "__set_name__", "__init_subclass__", "__class_getitem__", "__missing__", "__set__", "__get__"}
+
+
+def engine_assumptions(ck, an, classes=None):
+    """The attribute-level reasoning of every rule assumes plain attributes:
+    no dynamic attribute hooks, descriptors, metaclasses, exec/eval or
+    monkey-patching of in-package classes."""
+    n = 0
+    for c in an.prog.classes.values():
+        if c.module.name.startswith("_fixture"):
+            continue
+        if classes is not None and c.name not in classes and not any(b.name in classes for b in an.prog.mro(c)):
+            continue
+        n += 1
+        hooks = sorted(set(c.methods) & DYNAMIC_HOOKS)
+        ck.check(not hooks, "MRO", "S0.no-dynamic-attribute-hooks", c.name, c.loc, f"{c.name} has plain attribute access",
+                 f"{c.name} defines {hooks}: attribute reads/writes no longer mean what the source says (all ledger / ordering rules would be unsound)", construct=f"{c.name}.{hooks[0] if hooks else ''}")
+        meta = [k for k in c.node.keywords if k.arg == "metaclass"]
+        ck.check(not meta, "MRO", "S0.no-metaclass", c.name, c.loc, f"{c.name} has no metaclass", f"{c.name} uses a metaclass", construct=f"{c.name}(metaclass=...)")
+        setters = [m for m in c.node.body if isinstance(m, ast.FunctionDef) and any(ast.unparse(d).endswith(".setter") or ast.unparse(d).endswith(".deleter") for d in m.decorator_list)]
+        ck.check(not setters, "MRO", "S0.no-property-setters", c.name, c.loc, f"{c.name} has no property setters", f"{c.name} defines property setters {[m.name for m in setters]}: a plain store may run code",
+                 construct=f"{c.name} setter")
+    for f in an.functions():
+        for node in walk_function(f.node):
+            if isinstance(node, ast.Call) and isinstance(node.func, ast.Name) and node.func.id in ("exec", "eval", "compile", "__import__", "globals", "locals", "vars") and f.short not in ("IEvent._public_attr",):
+                ck.fail("MRO", "S0.no-dynamic-code", f.short, f"{f.module.relpath}:{node.lineno}", f"{f.short} uses {node.func.id}(): the analysed source is not what runs", construct=stmt_text(node))
+            if isinstance(node, ast.Call) and isinstance(node.func, ast.Name) and node.func.id == "setattr" and f.short not in ("to_pandas", "to_pandas.<locals>.decorated"):
+                ck.fail("MRO", "S0.no-monkey-patching", f.short, f"{f.module.relpath}:{node.lineno}", f"{f.short} uses setattr(): attributes or methods are replaced at run time", construct=stmt_text(node))
+    return n
+
+
+# (function, parameter) -> expected default (python literal), reason, properties that rely on it
+DEFAULTS = [
+    ("Broker.__init__", "deposit", 100.0, "initial deposit", ("C01",)),
+    ("Broker.__init__", "epsilon", 1e-07, "float clean-up threshold of the exempt epsilon snap: must stay negligible", ("C01", "C05")),
+    ("Broker.net_liquidation_value", "raise_if_broke", True, "valuation raises by default", ("C09",)),
+    ("Broker.accrued_interest", "accrue", False, "a plain call is a query", ("C06",)),
+    ("Broker.holdings_values", "kind", "notional", "values are notional by default", ("C05", "C07")),
+    ("Broker.marking_to_market", "contract", None, "marks every contract by default", ("C01", "C05")),
+    ("Rebalancing.__init__", "absolute", True, "targets are absolute by default (spaces rely on it)", ("C03", "C17")),
+    ("Rebalancing.__init__", "fractional", True, "fractional trading by default", ("C12",)),
+    ("Rebalancing.__init__", "margin", 0.0, "no threshold by default", ("C12", "C03")),
+    ("Rebalancing.__init__", "measure", "weight", "weights by default", ("C03", "C17")),
+    ("PortfolioSpace.__init__", "as_weights", True, "weights by default", ("C17",)),
+    ("PortfolioSpace.__init__", "fractional", True, "fractional by default", ("C12", "C17")),
+    ("PortfolioSpace.__init__", "margin", 0.0, "no threshold by default", ("C12",)),
+    ("BoxPortfolio.__init__", "low", 0.0, "long-only lower bound", ("C17",)),
+    ("BoxPortfolio.__init__", "high", 1.0, "unleveraged upper bound", ("C17",)),
+    ("BoxPortfolio.__init__", "margin", 0.0, "no threshold by default", ("C12",)),
+    ("BoxPortfolio.__init__", "as_weights", True, "weights by default", ("C17",)),
+    ("BoxPortfolio.__init__", "fractional", True, "fractional by default", ("C12", "C17")),
+    ("DiscretePortfolio.__init__", "as_weights", True, "weights by default", ("C17",)),
+    ("DiscretePortfolio.__init__", "fractional", True, "fractional by default", ("C12", "C17")),
+    ("Transmitter.__init__", "markov_reset", False, "history is replayed by default", ("C04", "C02")),
+    ("Transmitter.__init__", "warmup", None, "no warm-up bound by default", ("C04",)),
+    ("Transmitter._create_partitions", "latency", 0, "no latency by default", ("C04", "C08")),
+    ("Transmitter.add_prices", "spread", 0, "no spread by default", ("C18",)),
+    ("Transmitter._reset", "episode_length", None, "whole fold by default", ("C15",)),
+    ("Transmitter.walk_forward", "sliding_window", True, "sliding window by default", ("C15",)),
+    ("TradingEnv.__init__", "latency", 0, "no latency by default", ("C08", "C04")),
+    ("TradingEnv.__init__", "steps_delay", 0, "no delay by default", ("C08",)),
+    ("TradingEnv.__init__", "initial_cash", 100, "initial deposit", ("C01",)),
+    ("TradingEnv.__init__", "episode_length", None, "whole fold by default", ("C15",)),
+    ("IBrokerFees.__init__", "markup", 0.0, "no markup by default", ("C06",)),
+    ("IBrokerFees.__init__", "proportional", 0.0, "no proportional fee by default", ("C01",)),
+    ("IBrokerFees.__init__", "fixed", 0.0, "no fixed fee by default", ("C01",)),
+    ("FutureChain.__init__", "month", 0, "front month by default", ("C11",)),
+    ("FutureChain.lead_contract", "month", 0, "no extra offset by default", ("C11", "C14")),
+    ("State.__init__", "window", 1, "window 1 by default", ("C18",)),
+    ("State.__init__", "stride", None, "no stride by default", ("C18",)),
+    ("LimitOrderBook.__init__", "time", None, "no time", ("C14",)),
+    ("PandasMetrics.value_at_risk", "quantile", 0.025, "VaR level", ("C16",)),
+    ("PandasMetrics.expected_shortfall", "quantile", 0.025, "ES level", ("C16",)),
+    ("PandasMetrics.excess_cagr", "over", 0.0, "zero hurdle", ("C16",)),
+    ("PandasMetrics.sharpe_ratio", "risk_free", 0.0, "zero risk-free", ("C16",)),
+]
+
+
+def defaults_table(ck, an, prop):
+    n = 0
+    for short, param, want, why, props in DEFAULTS:
+        if prop not in props:
+            continue
+        f = an.prog.func(short)
+        d = f.param_default(param)
+        n += 1
+        try:
+            got = ast.literal_eval(d) if d is not None else "<no default>"
+        except Exception:
+            got = ast.unparse(d)
+        same = (got == want) and (type(got) is type(want) or isinstance(got, (int, float)) and isinstance(want, (int, float)) and not isinstance(got, bool) and not isinstance(want, bool))
+        ck.check(same, "CONST", "S0.api-default", short, f.loc, f"{short}({param}={want!r}): {why}", f"{short}({param}=...) default is {got!r}, the property's mechanisms rely on {want!r} ({why})", construct=f"{short}({param}=)")
+    return n
+
+
+# built-in contract specifications the accounting rules rely on
+CONTRACT_SPECS = {
+    "Asset": {"multiplier": 1.0, "cash_requirement": 1.0, "margin_requirement": 0.0},
+    "Rate": {"multiplier": 1.0, "cash_requirement": 1.0, "margin_requirement": 0.0},
+    "Future": {"cash_requirement": 0.0},
+    "FutureChain": {"cash_requirement": 0.0},
+}
+
+
+def contract_spec_table(ck, an):
+    for cname, spec in CONTRACT_SPECS.items():
+        c = an.prog.cls(cname)
+        for attr, want in spec.items():
+            v = c.class_attrs.get(attr)
+            got = v.value if isinstance(v, ast.Constant) else (ast.unparse(v) if v is not None else None)
+            ck.check(got == want, "CONST", "S0.contract-spec", cname, c.loc, f"{cname}.{attr} = {want}", f"{cname}.{attr} = {got}; built-in spot-like contracts are fully paid (cash 1, margin 0, multiplier 1), futures are margined (cash 0)",
+                     construct=f"{cname}.{attr}")
+        # subclasses do not re-define the spec of spot-like contracts
+        if cname in ("Asset",):
+            for s in an.prog.subclasses(c):
+                over = [a for a in spec if a in s.class_attrs or a in s.methods]
+                ck.check(not over, "MRO", "S0.contract-spec-not-overridden", s.name, s.loc, f"{s.name} inherits {cname}'s specification", f"{s.name} overrides {over}", construct=f"{s.name}.{over[0] if over else ''}")
+    fc = an.prog.cls("FutureChain")
+    for attr in ("multiplier", "margin_requirement"):
+        f = fc.methods.get(attr)
+        r = [ast.unparse(x.value) for x in returns_in(an.fa(f))] if f is not None else []
+        ck.check(r == [f"self.contracts[0].{attr}"], "ARGFLOW", "S0.chain-spec-delegates", f"FutureChain.{attr}", fc.loc, f"the chain's {attr} is its contracts' {attr}", f"FutureChain.{attr} returns {r}", construct=f"FutureChain.{attr}")
+
+
+DICT_API = {"__contains__", "__getitem__", "__setitem__", "__delitem__", "__iter__", "__len__", "__eq__", "__ne__", "__hash__", "get", "items", "keys", "values", "copy", "pop", "popitem", "update", "setdefault", "clear", "fromkeys", "__missing__",
+            "__or__", "__ior__", "__reversed__", "__bool__"}
+
+
+def allocation_not_shadowed(ck, an, prefix):
+    """_Allocation and its subclasses are plain dicts: nothing of the dict API the mechanisms use is overridden."""
+    base = an.prog.cls("_Allocation")
+    for c in [base] + an.prog.subclasses(base):
+        over = sorted((set(c.methods) | set(c.class_attrs)) & DICT_API)
+        ck.check(not over, "MRO", f"{prefix}.allocation-is-a-plain-dict", c.name, c.loc, f"{c.name} does not override dict behaviour",
+                 f"{c.name} overrides {over}: membership tests, lookups and iteration in make_trades / __sub__ no longer mean what they say", construct=f"{c.name}.{over[0] if over else ''}")
+    ck.check(base.ext_bases == ["dict"] or base.ext_bases == ["builtins.dict"], "MRO", f"{prefix}.allocation-base", "_Allocation", base.loc, "_Allocation subclasses dict", f"_Allocation bases: {base.ext_bases}", construct="class _Allocation(dict)")
